@@ -12,9 +12,8 @@ what the WRITERS of oj and sen do with the two options (`oj/writer.go`, `oj/tigh
   or is not exactly `map[string]any` at the type switch): a nil pointer value is dropped under
   `OmitNil`; after dereferencing a pointer value, a slice, array, `[]byte` or map of length 0 is
   dropped when `OmitNil || OmitEmpty` (an EMPTY non-nil container is dropped by `OmitNil` alone); a
-  string of length 0 is dropped when `OmitEmpty` — by the INDENTED writer; the TIGHT writer tests
-  `OmitNil || OmitEmpty` here too (`oj/tight.go`, `sen/tight.go`: finding
-  `C15-omitnil-tight-empty-string`); every other value — zero numbers, false, a nil interface, a
+  string of length 0 is dropped when `OmitEmpty` (before /repo d7a5508 the TIGHT writer tested
+  `OmitNil || OmitEmpty` here: finding `C15-omitnil-tight-empty-string`, fixed; `strDropOf true`); every other value — zero numbers, false, a nil interface, a
   struct — is written;
 * `appendObject` / `tightObject` (+ the sorted twins; a `map[string]any` that reaches the type
   switch: top level or held by an interface): a member whose dynamic type is nil is dropped under
@@ -129,13 +128,15 @@ def encValO (q : Quirks) (o : Opts) (strDrop : Bool) (plan : Bool → List (Fiel
 
 /-- the string test of the reflective map walker: `wr.OmitEmpty` in `appendMap` (`oj/writer.go`,
 `sen/writer.go`); in `tightMap` (`oj/tight.go`, `sen/tight.go`) `wr.OmitNil || wr.OmitEmpty` when
-`tightNil` (the code as it is: finding `C15-omitnil-tight-empty-string`), `wr.OmitEmpty` repaired -/
+`tightNil` (the code before /repo d7a5508: finding `C15-omitnil-tight-empty-string`), `wr.OmitEmpty` since -/
 def strDropOf (tightNil : Bool) (o : Opts) : Bool :=
   if o.indent then o.omitEmpty else (tightNil && o.omitNil) || o.omitEmpty
 
-/-- the code as it is: the tight map walker drops an empty string under `OmitNil` alone
-(`omit_tests_match_source` of `Props/C15Omit.lean` ties this to the regenerated test) -/
-def omitTightNilCurrent : Bool := true
+/-- the code as it is (/repo d7a5508: the string test of `tightMap` is `wr.OmitEmpty`, like `appendMap`'s;
+before, the tight map walker dropped an empty string under `OmitNil` alone: finding
+`C15-omitnil-tight-empty-string`, fixed). `omit_tests_match_source` of `Props/C15Omit.lean` ties this
+to the regenerated test; `encodeOWith true` is the code before d7a5508. -/
+def omitTightNilCurrent : Bool := false
 
 /-- what `oj.JSON`/`Marshal`/`Write` (`Enc.oj`) and `sen.String` (`Enc.sen`) describe under all
 options, `OmitNil` and `OmitEmpty` included (`Enc.alt`: the walker of `encode` with the oj/sen omit
